@@ -1,3 +1,6 @@
 import RV.C11.Props
 open RV.C11
-#print axioms placeholder_c11
+#print axioms path_correct
+#print axioms path_nodup
+#print axioms path_terminates
+#print axioms zero_length_on_given_term
